@@ -68,6 +68,9 @@ def snapshot():
         except LookupError:
             probe.append(None)
     snap["codecs:lookup"] = json.dumps(probe)
+    import warnings
+    snap["warnings:filters"] = (hashlib.sha1(repr([(a, getattr(m, "pattern", m), c.__name__, getattr(mo, "pattern", mo), ln) for a, m, c, mo, ln in warnings.filters]).encode()).hexdigest()[:12]
+                                + f":{len(warnings.filters)} filters:showwarning={getattr(warnings.showwarning, '__module__', '?')}.{getattr(warnings.showwarning, '__qualname__', '?')}")
     snap["interpreter:limits"] = f"recursion={sys.getrecursionlimit()} cwd={os.getcwd()} path={hashlib.sha1(json.dumps(sys.path).encode()).hexdigest()[:8]}"
     try:
         tmp = os.environ.get("TMPDIR") or "/tmp"
@@ -272,7 +275,8 @@ def _global_setters():
     import warnings
     return [(sys, "getrecursionlimit"), (sys, "setrecursionlimit"), (sys, "setswitchinterval"), (mimetypes, "add_type"), (mimetypes, "init"),
             (codecs, "register"), (codecs, "register_error"), (os, "chdir"), (os, "umask"), (os, "putenv"), (locale, "setlocale"),
-            (decimal, "setcontext"), (warnings, "simplefilter"), (warnings, "filterwarnings"), (gc, "disable"), (gc, "enable"), (threading, "setprofile"), (threading, "settrace")]
+            (decimal, "setcontext"), (warnings, "simplefilter"), (warnings, "filterwarnings"), (warnings, "resetwarnings"),
+            (warnings.catch_warnings, "__enter__"), (warnings.catch_warnings, "__exit__"), (decimal, "localcontext"), (gc, "disable"), (gc, "enable"), (threading, "setprofile"), (threading, "settrace")]
 
 
 def part_sched_globals(case):
@@ -303,7 +307,7 @@ def part_sched_globals(case):
         f = getattr(mod, name, None)
         if f is not None:
             originals[(mod, name)] = f
-            setattr(mod, name, wrap(f, f"{mod.__name__}.{name}"))
+            setattr(mod, name, wrap(f, f"{getattr(mod, '__name__', mod)}.{name}"))
     bad = []
     seen_labels = set()
     hooks_live = [0]
@@ -320,8 +324,15 @@ def part_sched_globals(case):
             hooks_live[0] = max(hooks_live[0], sum(1 for _t, lbl in run.trace if lbl.startswith("sys.")))
         sched.explore(probe_fns, 2, probe_done, max_schedules=1)
 
+        import warnings
+        filters0 = list(warnings.filters)
+
         def make_fns():
+            # every schedule starts from the state before the exploration (a residue is reported for the schedule that leaves it, not for all later ones)
             originals[(sys, "setrecursionlimit")](limit0)
+            if list(warnings.filters) != filters0:
+                warnings.filters[:] = filters0
+                getattr(warnings, "_filters_mutated", lambda: None)()
             got = [None] * k
 
             def body(idx):
@@ -341,7 +352,7 @@ def part_sched_globals(case):
                     bad.append({"sym": "result-differs-from-extraction-alone", "feature": feat, "trace": trace,
                                 "detail": f"{_short(steps[i])}: {got[i]} in this schedule vs {solo[i]} alone"})
             after = snapshot()
-            for k2 in ("interpreter:limits", "mimetypes:tables", "codecs:lookup", "archive_config"):
+            for k2 in ("interpreter:limits", "mimetypes:tables", "codecs:lookup", "archive_config", "warnings:filters"):
                 if before.get(k2) != after.get(k2):
                     bad.append({"sym": f"global-state-left-changed:{k2.split(':')[0]}", "feature": feat, "trace": trace,
                                 "detail": f"{k2}: {before.get(k2)} -> {after.get(k2)} after all {k} threads have finished"})
@@ -805,6 +816,14 @@ def main(run):
     for i in range(run.n(2, 20)):
         setter_cases.append({"part": "sched-globals", "steps": [rng.choice(deep), rng.choice(deep + plainish)] + ([rng.choice(plainish)] if rng.random() < 0.5 else []),
                              "seed": run.seed * 100 + i, "max_schedules": run.n(100, 1000)})
+    # two documents of the same format at once, for every format: a save / set / restore of interpreter-wide state inside one extractor
+    # (warnings filters, locale, decimal context ...) only shows when two of its sections overlap
+    for fam, spec in sorted(iso.FAMILIES.items()):
+        if spec[0] == "route" or len(spec[3]) < 2 or fam.startswith(("deep-", "unb-")):
+            continue
+        v = spec[3]
+        setter_cases.append({"part": "sched-globals", "steps": [[spec[0], {"src": ["iso", fam, v[0]], "op": None}, 1], [spec[0], {"src": ["iso", fam, v[1]], "op": None}, 0]],
+                             "seed": run.seed, "max_schedules": run.n(200, 2000)})
     cases += setter_cases
     # the AES round-key memo at capacity: a hit on the entry that is next to be evicted against misses that evict (all interleavings for 2 threads)
     cases += [{"part": "sched-cache", "threads": 2, "seed": run.seed}, {"part": "sched-cache", "threads": 3, "seed": run.seed, "preemption_bound": 2, "max_schedules": run.n(400, 6000)},
@@ -836,7 +855,7 @@ def main(run):
     iso_steps = [[k, {"src": s, "op": None}, p] for g in groups for k, s in g["members"]
                  for p in ((pidx_of(s),) if run.quick else (0, 1 + zlib.crc32(json.dumps(s).encode()) % (len(iso.PATHS) - 1)))]
     for gi, g in enumerate(groups):
-        if run.quick and gi % 3 != run.seed % 3 and g["name"].split(":")[0] not in ("rtf", "docx", "pdf", "router", "archive", "markup"):
+        if run.quick and gi % 3 != run.seed % 3 and g["name"].split(":")[0] not in ("rtf", "docx", "pdf", "router", "archive", "markup", "xlsx"):
             continue        # quick tier: a third of the groups per seed under threads (all of them in the histories below)
         # (the AES-256 member takes seconds per extraction: it stays in the histories, the threads get the cheap members)
         stress_cases.append({"part": "stress", "seed": run.seed * 1000 + 500 + gi, "threads": 8, "iterations": run.n(10, 30), "group": g["name"],
@@ -1012,7 +1031,7 @@ def main(run):
     run.require("context_groups", len(groups), 39)
     run.require("round_key_memo_schedules_2_threads", run.counters.get("round_key_memo_schedules_2_threads", 0), 20)
     run.require("round_key_memo_schedules_3_threads", run.counters.get("round_key_memo_schedules_3_threads", 0), 300)
-    run.require("setter_exploration_cases_finished", run.counters.get("setter_exploration_cases_finished", 0), run.n(5, 20))
+    run.require("setter_exploration_cases_finished", run.counters.get("setter_exploration_cases_finished", 0), run.n(25, 40))
     run.require("setter_hook_points_seen_in_self_test", run.counters.get("setter_hook_points_seen_in_self_test", 0), 4)
     run.require("stress_extractions_on_encrypted_pdfs", run.counters.get("stress_extractions_on_encrypted_pdfs", 0), run.n(60, 200))
     run.require("encrypted_pdfs_decrypted_and_extracted_in_isolation", run.counters.get("encrypted_pdfs_decrypted_and_extracted_in_isolation", 0), 4)
